@@ -75,6 +75,7 @@ static void run_world(const char *mode, long long idx, const std::vector<WOp> &w
 	rec.counters["sched_points"] += w.steps; rec.counters["sched_switches"] += w.switches;
 	{ static uint64_t max_steps = 0; if(out.kind == sched::Outcome::Ok && w.steps > max_steps) { max_steps = w.steps; rec.notes[std::string("max_points_in_a_completing_schedule:shard") + std::to_string(opt.shard)] = std::to_string(max_steps) + " (budget " + std::to_string(w.step_limit) + ")"; } }
 	std::string tail; for(size_t k = w.trace.size() > 50 ? w.trace.size() - 50 : 0; k < w.trace.size(); k++) tail += w.trace[k] + " ";
+	if(idx == 1) sample(std::string(mode) + " schedule #1, {" + sdesc + "} observed points: " + tail.substr(0, 900), 40);
 	auto flag = [&](const std::string &key, const std::string &what) { case_detail("%s :: last points: %s", sdesc.c_str(), tail.substr(0, 2500).c_str()); violation("C10:radix:" + key, what + " [" + sdesc + "]"); };
 	if(out.kind == sched::Outcome::Panic) flag("assert", "library assertion: " + out.detail);
 	else if(out.kind == sched::Outcome::Deadlock || out.kind == sched::Outcome::Livelock) flag("blocked", out.detail);
